@@ -40,7 +40,22 @@ def main():
     ctx = engine.Ctx(a.pid, a.tier, a.seed)
     if a.replay:
         return props.replay(ctx, a.replay)
-    return props.PROPS[a.pid](ctx)
+    try:
+        return props.PROPS[a.pid](ctx)
+    except Exception:
+        # the machinery itself failed on this tree (an answer it cannot digest): the property is no longer shown to hold
+        import time
+        import traceback
+        from vlib import run
+        tb = traceback.format_exc()
+        os.makedirs(os.path.join(run.OUT, "replays"), exist_ok=True)
+        path = os.path.join(run.OUT, "replays", "%s-%d-%d-crash.json" % (a.pid, a.seed, int(time.time())))
+        json.dump({"property": a.pid, "tier": a.tier, "seed": a.seed, "kind": "broken", "cases": [],
+                   "broken_obligations": [{"what": "the check crashed while judging the implementation's answers", "log": tb[-3000:]}],
+                   "failures_before_the_crash": [f.to_json() for f in (ctx.failures + ctx.disagreements)[:20]]}, open(path, "w"), indent=1)
+        sys.stderr.write(tb)
+        print("VIOLATION property=%s replay=%s no-failing-input-found" % (a.pid, path))
+        return 1
 
 
 if __name__ == "__main__":
